@@ -71,7 +71,7 @@ def concrete_oracle(prop, n_senders, n_msgs, n_drainers, n_stoppers, obs):
 
 
 def replay(prop, n_senders, n_msgs, n_drainers, n_stoppers, status0, sched, expected_bad, tries=40):
-    seq = [t for (_, t, _, _, _) in sched]
+    seq = ['%d:%s' % (t, lbl) for (_, t, _, lbl, _) in sched if not lbl.endswith('try_recv')]
     attempts = []
     obs = run_native(n_senders, n_msgs, n_drainers, n_stoppers, status0, seq)
     bad, div = concrete_oracle(prop, n_senders, n_msgs, n_drainers, n_stoppers, obs)
